@@ -4,10 +4,10 @@ EXTENDS Naturals, Sequences, TLC, Json
 
 CONSTANTS Inputs, Modes, PathCases, Extras
 VARIABLES c
-(* extra "range_end": --range-end 17 alone (every differing input differs inside its first 17 bytes); explored under the *)
+(* extra "range_end": --range-end 17 alone (every small differing input differs inside its first 17 bytes); explored under the *)
 (* default configuration only                                                                                           *)
 Init == c \in {r \in {[input |-> i, mode |-> m, pathcase |-> p, extra |-> x] : i \in Inputs, m \in Modes, p \in PathCases, x \in Extras} :
-                 r.extra = "range_end" => r.pathcase \in {"none", "plain", "ign_norespect"}}
+                 r.extra = "range_end" => (r.pathcase \in {"none", "plain", "ign_norespect"} /\ r.input # "large")}
 Next == UNCHANGED c
 Spec == Init /\ [][Next]_c
 
